@@ -335,8 +335,21 @@ def rw_rev_collect(tl):
 
 
 def rw_range_contains(tl):
-    """R8: `! ( 1 ..= 36 ) . contains ( & X )` style range-contains on integer literals stays; nothing to do."""
-    return tl, 0
+    """R8: `( 'a' ..= 'b' ) . contains ( & X )` on *char literals* => `char_in ( 'a' , 'b' , X )`.
+    (vstd specifies RangeInclusive::contains for integer ranges only.)"""
+    out = []
+    i = 0
+    cnt = 0
+    while i < len(tl):
+        if (tl[i] == "(" and i + 11 < len(tl) and tl[i + 1].startswith("'") and tl[i + 2] == "..=" and tl[i + 3].startswith("'")
+                and tl[i + 4:i + 9] == [")", ".", "contains", "(", "&"] and tl[i + 10] == ")"):
+            out += ["char_in", "(", tl[i + 1], ",", tl[i + 3], ",", tl[i + 9], ")"]
+            i += 11
+            cnt += 1
+        else:
+            out.append(tl[i])
+            i += 1
+    return out, cnt
 
 
 # --- R1: operators on references ------------------------------------------------------------
